@@ -125,7 +125,75 @@ func (P *Prog) kindFactsDepth(b *ssa.BasicBlock, rv ssa.Value, depth int) (is ma
 			}
 		}
 	}
-	for _, gd := range guardsOf(b) {
+	// a loop-carried value (`for { v = v.Elem(); if v.Kind() != Pointer { return } }`): the facts that hold for
+	// the incoming value on every edge into the phi (the guards that dominate the predecessor plus the branch
+	// taken on that edge)
+	if ph, isPhi := rv.(*ssa.Phi); isPhi && depth < 3 {
+		var accIs, accNot map[int64]bool
+		for i, e := range ph.Edges {
+			pred := ph.Block().Preds[i]
+			si, sn := P.kindFactsFrom(append(guardsOf(pred), edgeGuard(pred, ph.Block())...), e)
+			pi, pn := map[int64]bool{}, map[int64]bool{}
+			if _, isParam := cv(e).(*ssa.Parameter); isParam {
+				pi, pn = P.kindFactsDepth(pred, e, depth+1)
+			}
+			for k := range pi {
+				si[k] = true
+			}
+			for k := range pn {
+				sn[k] = true
+			}
+			if accIs == nil {
+				accIs, accNot = si, sn
+				continue
+			}
+			for k := range accIs {
+				if !si[k] {
+					delete(accIs, k)
+				}
+			}
+			for k := range accNot {
+				if !sn[k] {
+					delete(accNot, k)
+				}
+			}
+		}
+		for k := range accIs {
+			is[k] = true
+		}
+		for k := range accNot {
+			not[k] = true
+		}
+	}
+	gi, gn := P.kindFactsFrom(guardsOf(b), rv)
+	for k := range gi {
+		is[k] = true
+	}
+	for k := range gn {
+		not[k] = true
+	}
+	return
+}
+
+// edgeGuard: the branch condition taken on the edge pred -> succ, if pred ends in an If.
+func edgeGuard(pred, succ *ssa.BasicBlock) []guard {
+	iff := condOf(pred)
+	if iff == nil || len(pred.Succs) != 2 || pred.Succs[0] == pred.Succs[1] {
+		return nil
+	}
+	switch succ {
+	case pred.Succs[0]:
+		return []guard{{iff, true}}
+	case pred.Succs[1]:
+		return []guard{{iff, false}}
+	}
+	return nil
+}
+
+// kindFactsFrom: the reflect.Kind facts about rv that the given guards establish.
+func (P *Prog) kindFactsFrom(guards []guard, rv ssa.Value) (is map[int64]bool, not map[int64]bool) {
+	is, not = map[int64]bool{}, map[int64]bool{}
+	for _, gd := range guards {
 		bo, ok := gd.If.Cond.(*ssa.BinOp)
 		if !ok || (bo.Op != token.EQL && bo.Op != token.NEQ) {
 			continue
@@ -1382,20 +1450,26 @@ func (P *Prog) paramValidAtCallSites(rv ssa.Value, depth int) bool {
 	}
 	n := 0
 	okAll := true
-	for _, caller := range P.Funcs {
-		eachInstr(caller, func(b *ssa.BasicBlock, _ int, in ssa.Instruction) {
-			ci := callOf(in)
-			if ci == nil || ci.static != fn || idx >= len(ci.args()) {
-				return
-			}
-			n++
-			a := ci.args()[idx]
-			is, _ := P.kindFacts(b, a)
-			if len(is) > 0 || P.valueOfNonNil(b, a) || P.paramValidAtCallSites(a, depth+1) {
-				return
-			}
+	// every call that can reach fn: static calls, and the calls of a func value / interface method that the
+	// call graph resolves to it (a constructor picked out of a table by kind)
+	for _, site := range P.buildModCG().sites[originOf(fn)] {
+		in, isInstr := site.(ssa.Instruction)
+		if !isInstr {
+			continue
+		}
+		ci := callOf(in)
+		if ci == nil || idx >= len(ci.args()) {
 			okAll = false
-		})
+			continue
+		}
+		n++
+		a := ci.args()[idx]
+		b := in.Block()
+		is, _ := P.kindFacts(b, a)
+		if len(is) > 0 || P.valueOfNonNil(b, a) || P.paramValidAtCallSites(a, depth+1) {
+			continue
+		}
+		okAll = false
 	}
 	return n > 0 && okAll
 }
